@@ -117,9 +117,13 @@ def check_one(ctx, M, kind, adt, ext_trait, tr, meth):
     # variants of the state enum
     st_place = scan.self_field(st_f)
     variants = None
+    copies = typestate.Tracker(bi, [(st_f, st_place, "enum")]).copy_locals
+    state_local = None
     for e in bi.switches:
         s_ = e["subject"]
-        on_state = s_ == st_place or (s_[0] == "call" and s_[1] in (("core::mem::replace", "replace"), ("core::mem::take", "take")) and s_[2] and s_[2][0] == st_place)
+        if e["kind"] == "discr" and s_[0] == "phi" and s_[1] in copies:
+            state_local = s_[1]
+        on_state = s_ == st_place or (s_[0] == "phi" and s_[1] in copies) or (s_[0] == "call" and s_[1] in (("core::mem::replace", "replace"), ("core::mem::take", "take")) and s_[2] and s_[2][0] == st_place)
         if e["kind"] == "discr" and on_state:
             variants = [l for l in e["edges"] if l != "otherwise"] + e.get("otherwise_names", [])
     ctx.require(variants and init in variants, "%s: match on self.%s with variants" % (where, st_f))
@@ -135,6 +139,13 @@ def check_one(ctx, M, kind, adt, ext_trait, tr, meth):
     tr = typestate.Tracker(bi, [(st_f, st_place, "enum")], flag_edges=flag_edges, flag_sites=flag_sites)
     nstates = ntrans = 0
     samples = []
+    # the state the body acts on: the field, or its local working copy while one is in use
+    ci = tr.names.index("_copy_%d" % state_local) if state_local is not None else None
+
+    def eff(vals):
+        if ci is not None and vals[ci] != typestate.TOP:
+            return vals[ci]
+        return vals[0]
     dl_blocks = {s.block for s in dl}
     in_blocks = {s.block for s in inner}
     for entry in variants:
@@ -147,19 +158,23 @@ def check_one(ctx, M, kind, adt, ext_trait, tr, meth):
         # GATE
         for b in dl_blocks:
             for vals, flags in r.at_site.get(b, ()):
-                ok = vals[0] == init and "dl_ready" not in flags and "dl_polled" not in flags
-                ctx.check(ok, "C19.GATE", where, "entry %s: deadline polled in state %s%s" % (entry, vals[0], " (again)" if not ok else ""),
+                ok = eff(vals) == init and "dl_ready" not in flags and "dl_polled" not in flags
+                ctx.check(ok, "C19.GATE", where, "entry %s: deadline polled in state %s%s" % (entry, eff(vals), " (again)" if not ok else ""),
                           site=bi.describe(b))
         for b in in_blocks:
             for vals, flags in r.at_site.get(b, ()):
-                ok = vals[0] != init and vals[0] != typestate.TOP and (entry != init or "dl_ready" in flags)
+                ok = eff(vals) != init and eff(vals) != typestate.TOP and (entry != init or "dl_ready" in flags)
                 ctx.check(ok, "C19.GATE", where, "entry %s: inner polled in state %s %s" % (
-                    entry, vals[0], "after the deadline resolved" if "dl_ready" in flags else "with the deadline already resolved earlier" if entry != init else "BEFORE the deadline resolved"),
+                    entry, eff(vals), "after the deadline resolved" if "dl_ready" in flags else "with the deadline already resolved earlier" if entry != init else "BEFORE the deadline resolved"),
                     site=bi.describe(b))
         # LATCH
         for b, n, old, new, flags, sp in r.writes:
-            if old == init and new != init:
+            if n != st_f:
+                continue
+            if old == init and new != init and new != typestate.TOP:
                 ctx.check("dl_ready" in flags, "C19.LATCH", where, "entry %s: state %s -> %s written only after the deadline returned Ready" % (entry, old, new), site=sp)
+            elif old == init and new == init:
+                ctx.ok("C19.LATCH", where, "entry %s: state %s stored unchanged" % (entry, old))
             elif new == init or new == typestate.TOP:
                 ctx.fail("C19.LATCH", where, "entry %s: state written back to %s" % (entry, new), site=sp)
             else:
@@ -188,21 +203,24 @@ def check_one(ctx, M, kind, adt, ext_trait, tr, meth):
         pe = bi.outcome_edges(s, "Pending")
         ok = bool(re) and bool(pe)
         if ok:
-            # Pending edge: every return reached carries Poll::Pending assigned after the edge
+            # the values that may be returned, at the block that builds them (directly into _0 or into a
+            # local that is returned later: `break Poll::Pending` / `let output = ..; output`)
+            from . import flow as _flow
+            vals_ = _flow.returned_values(bi)
+            # Pending edge: every return reached carries a Poll::Pending built after the edge
             rp = bi.reach_from_edges(pe)
-            sets = [b for b in rp if b in pend_blocks]
+            sets = [b for b, k_, p_, t_ in vals_ if k_ == "Pending" and b in rp]
             good, bad = bi.must_reach([t for _, t in pe], sets, bi.return_blocks)
-            others = [b for b, i, rv in bi.assigns_to_return() if b in rp and b not in pend_blocks]
+            others = [b for b, k_, p_, t_ in vals_ if k_ != "Pending" and b in rp]
             ctx.check(good and not others, "C19.PASS", where, "inner Pending => Pending", site=s.where, path=common.fmt_blocks(bi, bad + others))
             rr = bi.reach_from_edges(re)
             want = ("field", ("variant", s.term, "Ready"), 0)
-            rets = [(b, i, rv) for b, i, rv in bi.assigns_to_return() if b in rr]
+            rets = [(b, k_, p_, t_) for b, k_, p_, t_ in vals_ if b in rr]
             good = bool(rets)
-            for b, i, rv in rets:
-                t = bi.T.of_rvalue(rv, 0) if rv.get("k") != "callresult" else None
-                if not (t is not None and t[0] == "agg" and t[1] == ("Poll", "Ready") and t[2] == (want,)):
+            for b, k_, p_, t_ in rets:
+                if not (t_ is not None and t_[0] == "agg" and t_[1] == ("Poll", "Ready") and t_[2] == (want,)):
                     good = False
-            g2, bad = bi.must_reach([t for _, t in re], [b for b, _, _ in rets], bi.return_blocks)
+            g2, bad = bi.must_reach([t for _, t in re], [b for b, _, _, _ in rets], bi.return_blocks)
             ctx.check(good and g2, "C19.PASS", where, "inner Ready(v) => Ready(v) with the same v", site=s.where, path=common.fmt_blocks(bi, bad))
         else:
             ctx.fail("C19.PASS", where, "inner poll result is neither returned directly nor matched on Ready/Pending", site=s.where)
